@@ -58,6 +58,8 @@ JsTerms(js) ==
 DocTerms(id, t, v, c) ==
   {<<"id:" \o ToString(id), <<>>>>, <<"t:" \o t, <<>>>>, <<"u:u" \o ToString(id), <<>>>>}
   \cup {<<"body:" \o c.toks[i], PosOf(c.toks, c.toks[i])>> : i \in 1..Len(c.toks)}
+  \* the same text in the field indexed with frequencies only (TermFrequencyRecorder): <<term, <<term frequency>>>>
+  \cup {<<"fr:" \o c.toks[i], <<Len(PosOf(c.toks, c.toks[i]))>>>> : i \in 1..Len(c.toks)}
   \cup (IF ty \in {"i64", "str"} /\ v # Missing THEN {<<"k:" \o c.raw, <<>>>>} ELSE {})
   \cup (IF ty \in {"i64", "str"} /\ v # Missing /\ "v2" \in DOMAIN c THEN {<<"k:" \o c.raw2, <<>>>>} ELSE {})
   \cup (IF "js" \in DOMAIN c THEN JsTerms(c.js) ELSE {})
